@@ -44,7 +44,13 @@ def _world(ctx, kinds, variant):
                 meth = {"account": "address", "application": "application_id", "asset": "asset_id"}[k]
                 a = Sym(f"ref{i}", attrs={"$isa": {"BaseType", cls}}, methods={meth: (lambda i=i, k=k: Rec("name", f"{k.upper()}{i}")), "type_spec": lambda sp=sp: sp})
             else:
-                a = Sym(f"{k}-expr{i}", attrs={"$isa": {"Expr"}}, methods={"type_of": lambda k=k: TT.attrs["bytes" if k == "account" else "uint64"]})
+                # the expression a caller is most likely to pass: the current application's own id / address (a Global leaf);
+                # for the ARC-4 callee index 0 means the callee itself, so this too must travel as a foreign reference
+                looks = {"application": ("Global", "current_app_id"), "account": ("Global", "current_app_address")}.get(k)
+                isa = {"Expr"} | ({"Global", "LeafExpr"} if looks else set())
+                a = Sym(f"{k}-expr{i}", attrs={"$isa": isa}, methods={"type_of": lambda k=k: TT.attrs["bytes" if k == "account" else "uint64"]})
+                if looks:
+                    a.attrs["field"] = Rec("attr", Rec("name", "GlobalField"), looks[1])
             args.append(a)
         else:
             kind = k.split(":")[1]
